@@ -22,7 +22,25 @@ type TerraformPlannedResource struct {
 	ProviderName string          `json:"provider_name"`
 	Type         string          `json:"type"`
 	Values       json.RawMessage `json:"values"`
-	Index        string          `json:"index"`
+	Index        resourceIndex   `json:"index"`
+}
+
+// resourceIndex is the instance key of a planned resource:
+// a string for resources created with for_each, a number for resources created with count
+type resourceIndex string
+
+func (r *resourceIndex) UnmarshalJSON(b []byte) error {
+	var s string
+	if err := json.Unmarshal(b, &s); err == nil {
+		*r = resourceIndex(s)
+		return nil
+	}
+	var n json.Number
+	if err := json.Unmarshal(b, &n); err != nil {
+		return err
+	}
+	*r = resourceIndex(n.String())
+	return nil
 }
 
 type TerraformModule struct {
@@ -100,7 +118,7 @@ func findFastlyServicesInTerraformModule(mod *TerraformModule) (*FastlyResources
 				if err := json.Unmarshal(v.Values, &a); err != nil {
 					return nil, errors.Wrap(err, "Failed to unmarshal fastly_service_acl_entries values")
 				}
-				a.Index = v.Index
+				a.Index = string(v.Index)
 				aclEntries = append(aclEntries, a)
 
 			case isFastlyServiceDictionaryItem(v):
@@ -108,7 +126,7 @@ func findFastlyServicesInTerraformModule(mod *TerraformModule) (*FastlyResources
 				if err := json.Unmarshal(v.Values, &d); err != nil {
 					return nil, errors.Wrap(err, "Failed to unmarshal fastly_service_dictionary_items values")
 				}
-				d.Index = v.Index
+				d.Index = string(v.Index)
 				dictionaryItems = append(dictionaryItems, d)
 
 			case isFastlyServiceDynamicSnippetContent(v):
